@@ -31,7 +31,7 @@ def main():
     pool, args = job["tables"]["pool"], job["tables"]["args"]
     out = []
     for case in job["cases"]:
-        rec = {"id": case["id"], "opt": job["seq"], "mk": {"m": last["m"], "scope": "all"}}
+        rec = {"id": case["id"], "opt": job["seq"], "mk": {"m": last["m"], "scope": "all", "ov": last.get("ov", [])}}
         if cls is None:
             rec.update({"opterr": opterr, "tr": [], "at": [], "evs": []})
         else:
